@@ -84,13 +84,20 @@ def correlation(semantics, activations, *, verbose=False, allow_nan=False):
     if verbose:
         start_time = time.time()
 
+    def _std(column):
+        # a constant column has no spread, but rounding errors in the mean can
+        # result in a tiny standard deviation that is different to zero
+        if np.all(column == column[0]):
+            return 0.0
+        return np.std(column, ddof=1)
+
     for jj in range(n_outcomes):
         semantics_means[jj] = np.mean(semantics[:, jj])
-        semantics_stds[jj] = np.std(semantics[:, jj], ddof=1)
+        semantics_stds[jj] = _std(semantics[:, jj])
 
     for ii in range(n_events):
         activations_means[ii] = np.mean(activations[:, ii])
-        activations_stds[ii] = np.std(activations[:, ii], ddof=1)
+        activations_stds[ii] = _std(activations[:, ii])
 
     if verbose:
         print(f"time needed for stds and means:  {time.time() - start_time}")
